@@ -10,9 +10,7 @@ DEFAULT_TIMEOUT_MS = int(os.environ.get('VERIF_QUERY_TIMEOUT_MS', '30000'))
 CVC5 = '/usr/bin/cvc5'
 
 
-def check_valid(pc, goal, timeout_ms=None, use_cvc5=True, seed=0):
-    """is  /\\ pc => goal  valid?  returns dict(status='unsat'|'sat'|'unknown', backend, seconds, model)"""
-    timeout_ms = timeout_ms or DEFAULT_TIMEOUT_MS
+def _z3_check(pc, goal, timeout_ms, seed=0):
     s = z3.Solver()
     s.set('timeout', timeout_ms)
     if seed:
@@ -21,18 +19,75 @@ def check_valid(pc, goal, timeout_ms=None, use_cvc5=True, seed=0):
     s.add(z3.Not(goal) if not isinstance(goal, bool) else z3.BoolVal(not goal))
     t0 = time.time()
     r = s.check()
-    dt = time.time() - t0
-    if r == z3.unsat:
-        return {'status': 'unsat', 'backend': 'z3', 'seconds': dt, 'model': None}
-    if r == z3.sat:
-        return {'status': 'sat', 'backend': 'z3', 'seconds': dt, 'model': s.model()}
-    reason = s.reason_unknown()
+    return r, time.time() - t0, s
+
+
+def _symbols(t, acc=None, seen=None):
+    acc = set() if acc is None else acc
+    seen = set() if seen is None else seen
+    todo = [t]
+    while todo:
+        x = todo.pop()
+        if x.get_id() in seen:
+            continue
+        seen.add(x.get_id())
+        if z3.is_app(x):
+            d = x.decl()
+            if d.kind() == z3.Z3_OP_UNINTERPRETED:
+                acc.add(d.name())
+            todo.extend(x.children())
+        elif z3.is_quantifier(x):
+            todo.append(x.body())
+    return acc
+
+
+def check_valid(pc, goal, timeout_ms=None, use_cvc5=True, seed=0, facts=None):
+    """is  /\\ pc => goal  valid?  returns dict(status='unsat'|'sat'|'unknown', backend, seconds, model).
+    Ladder: z3 on the full hypothesis set; on `unknown`, z3 on weakened hypothesis sets (dropping hypotheses is
+    sound for validity: an `unsat` there is still a proof; a `sat` there is NOT a counterexample and is ignored);
+    then cvc5 on the full set."""
+    timeout_ms = timeout_ms or DEFAULT_TIMEOUT_MS
+    if isinstance(goal, bool):
+        goal = z3.BoolVal(goal)
+    variants = [('z3', pc)]
+    if facts:
+        sub = [c for c in pc if c.get_id() not in facts]
+        if len(sub) != len(pc):
+            variants.append(('z3/no-uf-facts', sub))
+    gs = _symbols(goal)
+    sub = [c for c in pc if _symbols(c) <= gs]
+    if len(sub) != len(pc):
+        variants.append(('z3/goal-symbols-only', sub))
+    total = 0.0
+    reason = ''
+    full_smt2 = None
+    # short attempts on every variant first, then longer ones: cheap proofs stay cheap, and no verdict depends
+    # on one long query surviving a loaded machine
+    for budget in (min(2500, timeout_ms), max(2500, timeout_ms // 3)):
+        for name, hyps in variants:
+            r, dt, s = _z3_check(hyps, goal, budget, seed)
+            total += dt
+            if r == z3.unsat:
+                return {'status': 'unsat', 'backend': name, 'seconds': total, 'model': None}
+            if name == 'z3':
+                if r == z3.sat:
+                    return {'status': 'sat', 'backend': 'z3', 'seconds': total, 'model': s.model()}
+                reason = s.reason_unknown()
+                if full_smt2 is None:
+                    full_smt2 = s.to_smt2()
     if use_cvc5 and os.path.exists(CVC5):
-        r2 = run_cvc5(s.to_smt2(), timeout_ms)
-        r2['seconds'] += dt
-        if r2['status'] != 'unknown':
-            return r2
-    return {'status': 'unknown', 'backend': 'z3', 'seconds': dt, 'model': None, 'reason': reason}
+        r3 = run_cvc5(full_smt2, timeout_ms)
+        total += r3['seconds']
+        r3['seconds'] = total
+        if r3['status'] != 'unknown':
+            return r3
+    r, dt, s = _z3_check(pc, goal, timeout_ms, seed + 7)
+    total += dt
+    if r == z3.unsat:
+        return {'status': 'unsat', 'backend': 'z3/seed2', 'seconds': total, 'model': None}
+    if r == z3.sat:
+        return {'status': 'sat', 'backend': 'z3', 'seconds': total, 'model': s.model()}
+    return {'status': 'unknown', 'backend': 'z3', 'seconds': total, 'model': None, 'reason': reason}
 
 
 def _to_cvc5(smt2):
